@@ -112,6 +112,7 @@ structure CommitOk (cr : Crypto F) (s : St F) (m : Marker F) (s' : St F) (v : Na
   ex : ∃ al d sp sp' rr,
     aGet s.allocs m.alloc = some al ∧ al.start ≤ m.ts ∧ m.ts ≤ al.expiration ∧
     al.bas.find? (fun d => d.blobber = m.blobber) = some d ∧ aGet s.sps m.blobber = some sp ∧
+    (0 ≤ m.ctr - s.lastCtr [(m.blobber : Int), m.client, m.alloc] ∧ m.ctr - s.lastCtr [(m.blobber : Int), m.client, m.alloc] ≤ maxDelta) ∧
     chargeOf d.price (m.ctr - s.lastCtr [(m.blobber : Int), m.client, m.alloc]) = some v ∧ v ≤ s.pool m.client ∧
     distribute sp v = .ok sp' ∧ Coin.addCoin d.readReward v = .ok rr ∧
     s' = { s with
@@ -127,9 +128,9 @@ theorem commit_inv {cr : Crypto F} {s s' : St F} {m : Marker F} {v : Nat}
   unfold commit at h
   simp only [bind_ok, need_ok, getOr_ok, mapErr_ok, keyOf_eq, Option.some.injEq, pure, Except.pure,
     Except.ok.injEq, Prod.mk.injEq, decide_eq_true_eq, exists_and_left, exists_eq_left'] at h
-  obtain ⟨hcid, _, u, hver, al, hal, hstart, hexp, _, _, d, hd, sp, hsp, value, hval, hbal, _, sp', hdist, rr, hrr, hs, hv⟩ := h
+  obtain ⟨hcid, _, u, hver, al, hal, hstart, hexp, _, _, d, hd, sp, hsp, hrange, _, value, hval, hbal, _, sp', hdist, rr, hrr, hs, hv⟩ := h
   subst hv
-  exact ⟨hcid, hver, al, d, sp, sp', rr, hal, hstart, hexp, hd, hsp, hval, hbal, hdist, hrr, hs.symm⟩
+  exact ⟨hcid, hver, al, d, sp, sp', rr, hal, hstart, hexp, hd, hsp, hrange, hval, hbal, hdist, hrr, hs.symm⟩
 
 theorem commit_ctr_le {cr : Crypto F} {s s' : St F} {m : Marker F} {v : Nat}
     (h : commit cr s m = .ok (s', v)) : s.lastCtr (keyM m) ≤ m.ctr ∧ 0 < m.ctr := by
